@@ -380,7 +380,7 @@ pub fn replay(part: &str, case: serde_json::Value) -> Option<CaseResult> {
 pub fn meta() -> EvidenceMeta {
     EvidenceMeta {
         level: "exploration",
-        rule: "cases = paths built as token sequences (literal ASCII/non-ASCII text, spaces, stray '$', '{', '}', '$ENV', '$ENV{', well-formed references to a pool of fourteen variables (two of a single ASCII letter, two with names of 264 and 1032 characters) (names incl. '.', '_' first, non-ASCII letters, non-ASCII decimal digits / letter numbers / other numbers) each set or unset per case, repeated and adjacent references, malformed references: empty name, illegal first/inner character, nested, missing brace at end or before '/') with '$'-free adversarial values (empty, braces, 'ENV{LvAB}', 'LvAB}', sub-directories, non-ASCII); oracle: (bulk, guarded hook) expansion == the harness's single left-to-right pass in which substituted text is never rescanned, no panic; (end-to-end, public API) FileAppender::build, RollingFileAppender::build, the same two through a YAML configuration file and the default deserializers, and FixedWindowRoller::roll on a filesystem-safe path under a fresh directory create exactly the file at the reference location and no other regular file, and in truncate mode empty the pre-existing file at that location. non-trivial = a substituted reference together with a construct left verbatim, or a value containing braces, or a multi-byte variable name".into(),
+        rule: "cases = paths built as token sequences (literal ASCII/non-ASCII text, spaces, stray '$', '{', '}', '$ENV', '$ENV{', well-formed references to a pool of fourteen variables (two of a single ASCII letter, two with names of 264 and 1032 characters) (names incl. '.', '_' first, non-ASCII letters, non-ASCII decimal digits / letter numbers / other numbers) each set or unset per case, repeated and adjacent references, malformed references: empty name, illegal first/inner character, nested, missing brace at end or before '/') with '$'-free adversarial values (empty, braces, 'ENV{LvAB}', 'LvAB}', sub-directories, non-ASCII); oracle: (bulk, guarded hook) expansion == the harness's single left-to-right pass in which substituted text is never rescanned, no panic; (end-to-end, public API) FileAppender::build, RollingFileAppender::build, the same two through a YAML configuration file and the default deserializers, and FixedWindowRoller::roll on a filesystem-safe path under a fresh directory create exactly the file at the reference location and no other regular file, and in truncate mode empty the pre-existing file at that location. Further inputs (rounds 11-15): bystander variables that are not valid Unicode sit in the environment; one roller rolls twice with every pool variable changed in between; references cut short by the next reference (substituted text that only then reads like a reference); rollers with a window of one; names with dots further in; variables with names no reference can have ('.a', 'Lv-A') exist. non-trivial = a substituted reference together with a construct left verbatim, or a value containing braces, or a multi-byte variable name".into(),
         assumptions: vec!["values are '$'-free (the statement's domain)".into(), "environment mutated between cases: one driver thread per process".into()],
         mutants_caught: vec![],
     }
